@@ -211,7 +211,9 @@ CALLS = {
     "rfm->apply()": "(Apply MRF)", "rfm->applyToAll(trackme)": "(Track MRF)",
     "drm->apply()": "(Apply MDrift)", "drm->applyToAll(trackme)": "(Track MDrift)",
     "fpm->apply()": "(Apply MFP)", "fpm->applyToAll(trackme)": "(Track MFP)",
-    "outstepnr++": "IncOutNr", "simulationstep++": "IncStep",
+    "outstepnr++": "IncOutNr", "simulationstep++": "IncStep", "++outstepnr": "IncOutNr", "++simulationstep": "IncStep",
+    "outstepnr += 1": "IncOutNr", "simulationstep += 1": "IncStep",
+    "outstepnr = outstepnr + 1": "IncOutNr", "simulationstep = simulationstep + 1": "IncStep",
     "delete wake_field": "(Free OWakeField)", "delete wm": "(Free OWm)", "delete fpm": "(Free OFpm)",
     'printText("Aborted.")': "(Print MAborted)", 'printText("Finished.")': "(Print MFinished)",
 }
@@ -224,6 +226,87 @@ GUARDS = {
     "outstep > 0 && simulationstep % outstep == 0": "GOut",
     "drfm": "GDynRF", "drfm != nullptr": "GDynRF", "abort": "GAbort",
 }
+# --- conditions in negation normal form -------------------------------------------------------------------
+# A condition is a formula over atoms (comparisons, pointer / flag tests) built with && and || - ORDER KEPT, because
+# `renormalize > 0 && step % renormalize == 0` guards its second operand by its first.  Negations are pushed to the atoms
+# (De Morgan keeps the evaluation order and the short-circuit behaviour; a comparison of integers or pointers is negated by
+# its opposite operator, anything else stays `!(..)`).  `if (c) A else B` and `if (!c) B else A` get the same guard.
+NEGOP = {"<": ">=", ">=": "<", ">": "<=", "<=": ">", "==": "!=", "!=": "=="}
+PTRS = ("hdf_file", "wake_field", "wkm", "drfm")
+
+
+def _integral(n):
+    ty = ((unwrap(n).get("type") or {}).get("desugaredQualType") or (unwrap(n).get("type") or {}).get("qualType") or "")
+    ty = ty.replace("const ", "").strip()
+    if ty.endswith("*") or ty == "std::nullptr_t" or ty == "nullptr_t":
+        return True
+    return bool(re.match(r"^(bool|char|short|int|long|long long|unsigned|unsigned (char|short|int|long|long long)|"
+                         r"u?int(_fast|_least)?(8|16|32|64)_t|size_t|std::size_t|vfps::meshindex_t|meshindex_t)$", ty))
+
+
+def _atom(n, neg):
+    m = unwrap(n)
+    if m.get("kind") == "BinaryOperator" and m.get("opcode") in NEGOP:
+        if not neg:
+            return render(m)
+        a, b = kids(m)
+        if _integral(a) and _integral(b):
+            return render(dict(m, opcode=NEGOP[m["opcode"]]))
+        return "!(" + render(m) + ")"
+    if m.get("kind") == "CXXOperatorCallExpr" and render(kids(m)[0]) in ("operator!=", "operator==") and len(kids(m)) == 3:
+        txt = render(m)          # smart pointer against nullptr
+        if not neg:
+            return txt
+        return txt.replace(" != ", " == ") if " != " in txt else txt.replace(" == ", " != ")
+    txt = render(m)
+    if txt in PTRS:
+        return txt + (" == nullptr" if neg else " != nullptr")
+    if m.get("kind") == "BinaryOperator" and m.get("opcode") == "%" and _integral(m):
+        return "%s %s 0" % (par(rp(m), 9), "==" if neg else "!=")
+    return ("!" + par(rp(m), 15)) if neg else txt
+
+
+def nnf(n, neg=False):
+    m = unwrap(n)
+    if m.get("kind") == "UnaryOperator" and m.get("opcode") == "!":
+        return nnf(kids(m)[0], not neg)
+    if m.get("kind") == "BinaryOperator" and m.get("opcode") in ("&&", "||"):
+        op = m["opcode"]
+        if neg:
+            op = "||" if op == "&&" else "&&"
+        parts = []
+        for c in kids(m):
+            r = nnf(c, neg)
+            if isinstance(r, tuple) and r[0] == op:
+                parts += list(r[1])
+            else:
+                parts.append(r)
+        return (op, tuple(parts))
+    return _atom(m, neg)
+
+
+def _gform(txt):
+    if " && " in txt:
+        return ("&&", tuple(_gform(x) for x in txt.split(" && ")))
+    return txt + " != nullptr" if txt in PTRS else txt
+
+
+GUARD_FORMS = [(_gform(k), v) for k, v in GUARDS.items()]
+AT_FORM = ("&&", ("h5save > 0", "outstepnr % h5save == 0"))
+
+
+def guard_of(cond):
+    """(guard constructor, negated?) of a condition of the translated part"""
+    f, fn = nnf(cond, False), nnf(cond, True)
+    for form, name in GUARD_FORMS:
+        if f == form:
+            return name, False
+    for form, name in GUARD_FORMS:
+        if fn == form:
+            return name, True
+    raise TranslateError("condition not understood: if (%s)" % render(cond))
+
+
 # variables the translated part changes (IncStep / IncOutNr): a local constant that reads one of them may only be
 # used before the next change
 MUTABLE = ("simulationstep", "outstepnr")
@@ -278,7 +361,17 @@ class Tr:
                 ini = kids(v)[0] if kids(v) else None
                 if nm == "at":
                     init = render(ini) if ini is not None else None
-                    if init != AT_EXPR:
+                    if init in ("Defaults", "All") and ini is not None:
+                        # two-statement form: `at = Defaults; if (c) at = All;` (or mirrored); completed by the if below
+                        self.at_pending = init
+                        self.at_epoch = self.epoch
+                        continue
+                    ok = init == AT_EXPR
+                    if not ok and ini is not None and unwrap(ini).get("kind") == "ConditionalOperator":
+                        c, a, b = kids(unwrap(ini))      # the same choice with a negated / De Morgan condition
+                        ok = (nnf(c) == AT_FORM and (render(a), render(b)) == ("All", "Defaults")) or \
+                             (nnf(c, True) == AT_FORM and (render(a), render(b)) == ("Defaults", "All"))
+                    if not ok:
                         raise TranslateError("`at` is no longer %s but %s" % (AT_EXPR, init))
                     self.at_declared = True
                     self.at_epoch = self.epoch
@@ -322,17 +415,29 @@ class Tr:
             ks = kids(s)
             if s.get("hasInit") or s.get("hasVar"):
                 raise TranslateError("if with init/variable")
-            g = render(ks[0])
-            neg = False
-            if g not in GUARDS and g.startswith("!") and g[1:] in GUARDS:
-                g, neg = g[1:], True          # if (!c) A else B  ==  if (c) B else A
-            if g not in GUARDS:
-                raise TranslateError("condition not understood: if (%s)" % g)
+            if getattr(self, "at_pending", None) and len(ks) == 2:
+                body = ks[1]
+                while body.get("kind") == "CompoundStmt" and len(kids(body)) == 1:
+                    body = kids(body)[0]
+                try:
+                    btxt = render(body)
+                except TranslateError:
+                    btxt = ""
+                want = {"Defaults": ("at = All", False), "All": ("at = Defaults", True)}[self.at_pending]
+                if btxt == want[0]:
+                    if nnf(ks[0], want[1]) != AT_FORM:
+                        raise TranslateError("`at` is assigned under the condition %s, expected %s" % (render(ks[0]), AT_EXPR))
+                    if self.at_epoch != self.epoch:
+                        raise TranslateError("`at`: a step counter changed between its declaration and its assignment")
+                    self.at_pending = None
+                    self.at_declared = True
+                    return []
+            gname, neg = guard_of(ks[0])     # normal form: De Morgan / negated comparisons with swapped branches
             t = self.block(ks[1])
             e = self.block(ks[2]) if len(ks) > 2 else []
-            if neg:
+            if neg:                          # if (!c) A else B  ==  if (c) B else A
                 t, e = e, t
-            return [("cond", GUARDS[g], t, e)]
+            return [("cond", gname, t, e)]
         if k == "ReturnStmt":
             v = render(kids(s)[0])
             if v != "0":
@@ -350,6 +455,8 @@ class Tr:
             return [("call", "(Point %d)" % (len(self.points) - 1))]
         if txt in CALLS:
             if txt.endswith(", at)"):
+                if getattr(self, "at_pending", None):
+                    raise TranslateError("append(.., at): `at` was declared %s and never chosen by the save cadence" % self.at_pending)
                 if not self.at_declared:
                     raise TranslateError("append(.., at) without the `at` declaration")
                 if self.at_epoch != self.epoch:
@@ -398,14 +505,20 @@ def text_of(n):
 
 def interesting(n):
     """does the subtree hold something the skeleton keeps: the flag, a return, a hook point, a PhaseSpace call of SETUP_CALLS"""
+    return _interesting(n, False)
+
+
+def _interesting(n, in_lambda):
+    """a `return` inside the body of a lambda expression returns from the lambda, not from main(); hook points, the flag
+    and the modelled PhaseSpace calls are kept interesting there too (the lambda may be called anywhere later)"""
     k = n.get("kind")
-    if k == "ReturnStmt" or is_point(n):
+    if (k == "ReturnStmt" and not in_lambda) or is_point(n):
         return True
     if k == "DeclRefExpr" and n["referencedDecl"].get("name") == "abort" and n["referencedDecl"].get("kind") == "VarDecl":
         return True
     if k == "CXXMemberCallExpr" and text_of(n) in SETUP_CALLS:
         return True
-    return any(interesting(c) for c in kids(n))
+    return any(_interesting(c, in_lambda or k == "LambdaExpr") for c in kids(n))
 
 
 def line_of_node(n):
